@@ -28,11 +28,24 @@ FUNCS = {
 }
 
 
+class NamedFn:
+    """a callable with an address-free repr (function reprs carry 0x... addresses, which glom's
+    trace formatter may truncate in the middle)"""
+    __slots__ = ('f', '__name__')
+
+    def __init__(self, name, f):
+        self.f, self.__name__ = f, name
+
+    def __call__(self, *a, **kw):
+        return self.f(*a, **kw)
+
+    def __repr__(self):
+        return f'<fn {self.__name__}>'
+
+
 def _named(name):
     def deco(f):
-        f.__name__ = name
-        f.__qualname__ = name
-        return f
+        return NamedFn(name, f)
     return deco
 
 
